@@ -60,6 +60,10 @@ type driver struct {
 	tailRefused        bool
 	popped             sonic.Slot
 	orig               map[int]int // seq -> index at Save time
+	ord                map[int]int // seq -> ordinal of its Save (save order)
+	nsaved             int
+	midPops            []int // ordinals of the packets popped, since the sequencer was last empty, while others were parked behind them
+	mixed              bool  // ... and after one of those a packet parked in front of it was popped at the tail of the save area
 	offsetUsed         bool
 	oc                 map[string]int
 	maxslots, maxbytes int
@@ -143,6 +147,7 @@ func (d *driver) call(g Ev, e *Ev) {
 			d.handles = map[int]sonic.Slot{}
 		}
 		d.orig = map[int]int{}
+		d.ord = map[int]int{}
 	case "Save":
 		e.Toks = seqToks(10*g.Seq+5*g.V, g.N)
 		p := d.bytesOf(e.Toks)
@@ -151,6 +156,7 @@ func (d *driver) call(g Ev, e *Ev) {
 		d.tail = d.b.Save(len(p))
 		d.tailSeq = g.Seq
 		d.tailRefused = false
+		d.nsaved++
 		e.Idx, e.Len = d.units(d.tail.Index), d.units(d.tail.Length)
 	case "Push":
 		var ok bool
@@ -162,6 +168,10 @@ func (d *driver) call(g Ev, e *Ev) {
 			switch {
 			case ok:
 				d.oc["push_ok"]++
+				if d.mixed {
+					// the history a pop-order-sensitive offsetter would get wrong: see notes/C20.md
+					d.oc["push_ok_after_tail_pop_in_front_of_earlier_middle_pop"]++
+				}
 			case err == nil:
 				d.oc["push_duplicate_refused"]++
 			case bytesFull && !slotsFull:
@@ -185,6 +195,7 @@ func (d *driver) call(g Ev, e *Ev) {
 		if ok {
 			e.Ok = 1
 			d.orig[d.tailSeq] = d.tail.Index
+			d.ord[d.tailSeq] = d.nsaved
 			d.tail = sonic.Slot{}
 		}
 	case "DropTail":
@@ -221,6 +232,19 @@ func (d *driver) call(g Ev, e *Ev) {
 			}
 			if d.sq != nil && d.sq.Size() == 0 {
 				d.oc["pop_ok_draining"]++
+				d.midPops, d.mixed = nil, false
+			} else if d.sq != nil {
+				if s.Index+s.Length == d.b.SaveLen() {
+					d.oc["pop_ok_at_tail_not_draining"]++
+					for _, o := range d.midPops {
+						if o > d.ord[g.Seq] {
+							d.mixed = true
+						}
+					}
+				} else {
+					d.oc["pop_ok_in_front_of_parked_not_draining"]++
+					d.midPops = append(d.midPops, d.ord[g.Seq])
+				}
 			}
 			e.Slotbytes = d.tokens(d.b.SavedSlot(s))
 		}
@@ -249,6 +273,7 @@ func (d *driver) call(g Ev, e *Ev) {
 		}
 		d.b.DiscardAll()
 		d.tail, d.popped = sonic.Slot{}, sonic.Slot{}
+		d.midPops, d.mixed = nil, false
 	default:
 		panic("harness: unknown step " + g.Ev)
 	}
